@@ -156,11 +156,11 @@ func c15Eval(s *vh.Session, c c15Case, dir string) (string, string) {
 	var run vh.CmdResult
 	switch c.Invoke {
 	case "subdir-cwd":
-		run = s.RunCLI(filepath.Join(dir, "alpha"), "gen", "-cwd", "..", "./...")
+		run = s.RunCLI(filepath.Join(dir, "alpha"), append([]string{"gen", "-cwd", ".."}, c.Tree.CLIPatterns()...)...)
 	case "elsewhere-cwd":
-		run = s.RunCLI(os.TempDir(), "gen", "-cwd", dir, "./...")
+		run = s.RunCLI(os.TempDir(), append([]string{"gen", "-cwd", dir}, c.Tree.CLIPatterns()...)...)
 	default:
-		run = s.RunCLI(dir, "gen", "./...")
+		run = s.RunCLI(dir, append([]string{"gen"}, c.Tree.CLIPatterns()...)...)
 	}
 	s.Eval(1)
 	after, _ := vh.Snapshot(dir)
@@ -264,7 +264,7 @@ func TestC15(t *testing.T) {
 	}
 	rapid.Check(t, func(rt *rapid.T) {
 		dir := s.Scratch()
-		o := gen.LayoutOpts{Layouts: true, AbsRoot: dir, AllowCwd: true, SharedFile: true, Vars: true, MaxConvs: 5}
+		o := gen.LayoutOpts{Layouts: true, AbsRoot: dir, AllowCwd: true, SharedFile: true, Vars: true, MaxConvs: 5, ExplicitPatterns: true}
 		tree := gen.Layout(rt, o)
 		hasAlpha := false
 		for _, cv := range tree.Convs {
